@@ -22,6 +22,8 @@ OBLIGATIONS = [NS + t for t in [
     "sky_outside_conv", "sky_outside_conv_multi", "none_adds_nothing", "flat_total", "sky_free_of_source",
     "flat_sites", "tilted_sites", "none_sites", "repo_slope_factor", "repo_sky_table", "sites_names",
 ]]
+# kernels whose translated source text (Gen/Kernels.lean) is proved equal to the model kernel this property's theorems are about
+GEN_KERNELS = ["render_tilted_plane_sky"]
 MIRRORED_FILES = ["pysersic/priors.py", "pysersic/pysersic.py"]
 ASSUMPTIONS = [
     "numpyro's reparam/substitute/trace handlers are used to read the model image (modelled semantics, validated by this tie)",
